@@ -4,7 +4,7 @@ from typing import Optional
 from ..core import Report
 from ..fjfront import Stl
 from ..pyfacts import Repo
-from ..stlrules import rule_bitorder, rule_closure, rule_extent, rule_alias, rule_scratch
+from ..stlrules import rule_bitorder, rule_closure, rule_extent, rule_alias, rule_scratch, rule_const_fits, rule_jumpword_restore
 
 FILES = ['flipjump/stl/hex/input.fj', 'flipjump/stl/hex/output.fj', 'flipjump/stl/bit/input.fj', 'flipjump/stl/bit/output.fj',
          'flipjump/stl/bit/casting.fj', 'flipjump/stl/casting.fj', 'flipjump/stl/hex/strings.fj', 'flipjump/stl/runlib.fj']
@@ -19,6 +19,8 @@ def check(rep: Report, repo: Optional[Repo] = None) -> None:
     rule_bitorder(rep, stl)
     rule_scratch(rep, stl, 'C09', FILES, 80)
     rule_alias(rep, stl, 'C09', FILES, 8)
+    rule_const_fits(rep, stl, 'C09', FILES, 13)
+    rule_jumpword_restore(rep, stl, 'C09', FILES, 3)
     rep.assumptions.append('footprints assume generic position: distinct symbolic operands of a compile-time `==` / `!=` aliasing test denote distinct variables')
     rep.not_decided.append('decimal/hex conversion correctness, terminators and error branches for all values (value-level)')
 
